@@ -129,6 +129,13 @@ class VAdj(V):
 
 
 @dataclass
+class VNet(V):
+    """a pyvis.network.Network object: modelled by the assumed contract of the third-party class (node ids / labels in
+    insertion order, edge records from / to / arrow, the `directed` flag)"""
+    ref: z3.ExprRef
+
+
+@dataclass
 class VMeta(V):
     """a metaclass object (the result of type(cls))"""
     term: z3.ExprRef
